@@ -59,7 +59,7 @@ func Verif_C05_AloneVsTogether() {
 	config()
 	w1 := vNewWorldAt("m1")
 	w1.addPkg("p", true, "h1:p", nil, []string{"p.go"}, types)
-	err1 := w1.exec(false, true, nil, &vGenA{}, &vGenB{})
+	err1 := w1.exec(false, true, nil, vProtoA(), &vGenB{})
 	verifsym.Assert(err1 == nil, "run with p alone fails")
 	n1, d1 := vFilesOf(w1, "p", vSnapshot())
 	log1 := vLogOf(pp)
@@ -70,7 +70,7 @@ func Verif_C05_AloneVsTogether() {
 	w2 := vNewWorldAt("m2")
 	w2.addPkg("p", true, "h1:p", nil, []string{"p.go"}, types)
 	w2.addPkg(other, otherDirect, "h1:o", nil, []string{other + ".go"}, []vTypeSpec{{name: "T", tags: vBoth}})
-	err2 := w2.exec(!otherDirect, true, nil, &vGenA{}, &vGenB{})
+	err2 := w2.exec(!otherDirect, true, nil, vProtoA(), &vGenB{})
 	verifsym.Assert(err2 == nil, "run with p and another package fails")
 	n2, d2 := vFilesOf(w2, "p", vSnapshot())
 	log2 := vLogOf(pp)
@@ -152,7 +152,7 @@ func Verif_C06_Dispatch() {
 		vSet("gb", pp, "alias_C", vActRender)
 	}
 	vSet("gb", pp, "B", vActDeferOK)
-	err := w.exec(false, true, vLevelTags("ga", lg), &vGenA{}, &vGenB{})
+	err := w.exec(false, true, vLevelTags("ga", lg), vProtoA(), &vGenB{})
 	verifsym.Assert(err == nil, "Execute fails")
 
 	// effective tags: declaration over package over globals, key by key
@@ -280,7 +280,7 @@ func Verif_C08_History() {
 		vSet("gb", pp, "A", vActNothing)
 		vSet("gb", qp, "A", vActNothing)
 		build()
-		err = w.exec(all, force, nil, &vGenA{}, &vGenB{})
+		err = w.exec(all, force, nil, vProtoA(), &vGenB{})
 		return len(vLogOf(pp)) > 0, len(vLogOf(qp)) > 0, err
 	}
 	expectRun := func(all, force bool, pkg string) bool {
